@@ -160,12 +160,16 @@ func apErrKind(err error, texts map[int]string) string {
 	return errKind(err) + "@-"
 }
 
-func runAuditProc(failAt int, ops []string) string {
+func runAuditProc(failAt int, ops []string, after int) string {
 	auditd.SetLogger(zap.NewNop().Sugar())
 	log := &apLog{failAt: failAt, fired: "-"}
 	audits := make(chan string)
 	logins := make(chan common.RemoteUserLogin)
 	ap := auditd.Auditd{Audits: audits, Logins: logins, EventW: auditevent.NewAuditEventWriter(log), Health: health.NewHealth()}
+	if after > 0 {
+		// events stamped before this instant are ignored (Auditd.After)
+		ap.After = time.Unix(int64(1600000000+after), 0)
+	}
 	ctx, cancel := context.WithCancel(context.Background())
 	defer cancel()
 	done := make(chan error, 1)
@@ -277,7 +281,13 @@ func init() {
 						fmt.Fprintf(out, "%s E:panic\n", f[0])
 					}
 				}()
-				fmt.Fprintf(out, "%s %s\n", f[0], runAuditProc(failAt, strings.Split(f[2], ";")))
+				after := 0
+				for _, x := range f[3:] {
+					if strings.HasPrefix(x, "after=") {
+						after, _ = strconv.Atoi(x[6:])
+					}
+				}
+				fmt.Fprintf(out, "%s %s\n", f[0], runAuditProc(failAt, strings.Split(f[2], ";"), after))
 			}()
 			out.Flush()
 		}
